@@ -11,5 +11,6 @@ CONSTANTS
   ALLCH = FALSE
   Depth = 3
   GEN = FALSE
+  ALS = {TRUE, FALSE}
 INVARIANTS Bounded Emit
 PROPERTIES ErrIsAtomicStep MonotoneStep EgressForwardStep XoverForwardStep
